@@ -350,6 +350,7 @@ var c06ConcBodies = []struct {
 }{
 	{"valid-host-a", ssoP{}},
 	{"valid-host-b", ssoP{Host: "other.example:8443"}},
+	{"valid-on-the-other-host", ssoP{Host: ssoOtherHost}}, // the host whose SSO location "destination-of-the-other-host" names
 	{"valid-post-host-a", ssoP{Transport: "post"}},
 	{"destination-of-the-other-host", ssoP{Dest: "other-host"}},
 	{"foreign-destination", ssoP{Dest: "host"}},
